@@ -7,6 +7,7 @@ package c04_hist
 import (
 	"encoding/json"
 	"fmt"
+	"io"
 	"net/http"
 	"net/http/httptest"
 	"net/url"
@@ -41,11 +42,13 @@ type Cred struct {
 	FormSec string
 }
 
-func (c Cred) Coq() string {
+// Coq renders the credential; a Basic header is rendered as the two header TEXTS under the encodings
+// encID / encSec (see HeaderText), decoded on the Coq side (C04_OP.wire_basic).
+func (c Cred) Coq(encID, encSec string) string {
 	basic, id, sec, as := emit.None, "", "", emit.None
 	switch c.Kind {
 	case "basic":
-		basic = emit.Some(emit.Pair(emit.Str(c.ID), emit.Str(c.Sec)))
+		basic = emit.Ctor("wire_basic", emit.Str(HeaderText(encID, c.ID)), emit.Str(HeaderText(encSec, c.Sec)))
 		id, sec = c.FormID, c.FormSec
 	case "post":
 		id, sec = c.ID, c.Sec
@@ -101,12 +104,106 @@ type Op struct {
 	RT   int // 0 = parameter missing
 	Mut  string
 	// token requests: where the parameters travel ("" = body) and which storage method fails
-	// for the duration of this one request ("" = none; code exchange only)
+	// for the duration of this one request ("" = none; a refresh: CreateAccessAndRefreshTokens only,
+	// i.e. the storage refuses the rotation - model: TokenRefreshRF)
 	Place string
 	Fault string
-	// how the Basic header encodes id and secret: "" = form encoding with '+' for a space (RFC 6749
-	// 2.3.1, url.QueryEscape), "pct" = the same with %20 for a space; both denote the same credential
+	// how the Basic header encodes the id (BasicEnc) and the secret (SecEnc; "" = as the id): see HeaderText.
+	// "" / "form" = form encoding with '+' for a space (RFC 6749 2.3.1, url.QueryEscape), "pct" = %20 for a
+	// space, "lower" = lower-case hex digits: all three denote the credential itself. "raw" = not encoded at
+	// all, "twice" = encoded twice: these denote whatever their form-DEcoding is (the same credential only
+	// when nothing in it needs encoding).
 	BasicEnc string
+	SecEnc   string
+	// Place "stray": parameters the grant does not define, sent next to the others (name, value), in the
+	// body or - StrayQuery - in the query string
+	Stray      [][2]string
+	StrayQuery bool
+}
+
+// HeaderText: the text that stands for v in the Basic header under encoding enc.
+func HeaderText(enc, v string) string {
+	switch enc {
+	case "pct":
+		return strings.ReplaceAll(url.QueryEscape(v), "+", "%20")
+	case "lower":
+		e := []byte(url.QueryEscape(v))
+		for i := 0; i+2 < len(e); i++ {
+			if e[i] == '%' {
+				e[i+1], e[i+2] = lowerHex(e[i+1]), lowerHex(e[i+2])
+				i += 2
+			}
+		}
+		return string(e)
+	case "raw":
+		return v
+	case "twice":
+		return url.QueryEscape(url.QueryEscape(v))
+	}
+	return url.QueryEscape(v)
+}
+
+func lowerHex(b byte) byte {
+	if b >= 'A' && b <= 'F' {
+		return b + 'a' - 'A'
+	}
+	return b
+}
+
+// FormUnescape: application/x-www-form-urlencoded decoding as RFC 6749 2.3.1 demands of the server
+// ('+' = space, %XY = byte; ok = false for a '%' without two hex digits). Written out here - the
+// generator uses it to know which credential a header text denotes (the check itself decodes in Coq:
+// C04_OP.form_unescape).
+func FormUnescape(s string) (string, bool) {
+	hex := func(b byte) int {
+		switch {
+		case b >= '0' && b <= '9':
+			return int(b - '0')
+		case b >= 'A' && b <= 'F':
+			return int(b-'A') + 10
+		case b >= 'a' && b <= 'f':
+			return int(b-'a') + 10
+		}
+		return -1
+	}
+	var out []byte
+	for i := 0; i < len(s); i++ {
+		switch s[i] {
+		case '+':
+			out = append(out, ' ')
+		case '%':
+			if i+2 >= len(s) {
+				return "", false
+			}
+			a, b := hex(s[i+1]), hex(s[i+2])
+			if a < 0 || b < 0 {
+				return "", false
+			}
+			out = append(out, byte(16*a+b))
+			i += 2
+		default:
+			out = append(out, s[i])
+		}
+	}
+	return string(out), true
+}
+
+func (o Op) secEnc() string {
+	if o.SecEnc != "" {
+		return o.SecEnc
+	}
+	return o.BasicEnc
+}
+
+func (o Op) placeCoq() string {
+	if o.Place == "stray" {
+		names := make([]string, len(o.Stray))
+		for i, kv := range o.Stray {
+			names[i] = kv[0]
+		}
+		return emit.Ctor("P_stray", emit.StrList(names))
+	}
+	return placeCoq[o.Place]
 }
 
 var placeCoq = map[string]string{"": "P_body", "body": "P_body", "overlap": "P_overlap", "query": "P_query", "grant-query": "P_grant_query",
@@ -171,9 +268,13 @@ func (o Op) Coq() string {
 		if o.Fault != "" {
 			f = emit.Some("SM_" + o.Fault)
 		}
-		t = emit.Ctor("TokenCode", placeCoq[o.Place], f, o.Cred.Coq(), optNat(o.Code), emit.Str(o.URI), emit.Str(o.Ver))
+		t = emit.Ctor("TokenCode", o.placeCoq(), f, o.Cred.Coq(o.BasicEnc, o.secEnc()), optNat(o.Code), emit.Str(o.URI), emit.Str(o.Ver))
 	case "refresh":
-		t = emit.Ctor("TokenRefresh", placeCoq[o.Place], o.Cred.Coq(), optNat(o.RT), emit.StrList(o.Scopes))
+		ctor := "TokenRefresh"
+		if o.Fault != "" { // the storage refuses the rotation (Fault = CreateAccessAndRefreshTokens)
+			ctor = "TokenRefreshRF"
+		}
+		t = emit.Ctor(ctor, o.placeCoq(), o.Cred.Coq(o.BasicEnc, o.secEnc()), optNat(o.RT), emit.StrList(o.Scopes))
 	case "droprefresh":
 		t = emit.Ctor("DropRefresh", emit.Str(o.Client))
 	case "revoke":
@@ -386,7 +487,12 @@ func ExtraClients() []*refstore.Client {
 	sp.ID, sp.Secret, sp.Redirects, sp.PostLogout = "web 3", "pass phrase+1%/=&x", []string{"https://web3.example.com/cb"}, nil
 	sk := opfix.ECKey("client-web 3")
 	sp.Keys = map[string]*jose.JSONWebKey{"k1": {Key: &sk.PublicKey, KeyID: "k1", Algorithm: "ES256", Use: "sig"}}
-	return []*refstore.Client{&web, &pk, &sp}
+	// a generated secret as base64 leaves it ('+', '/', '=') with a space, under an id with a '+'
+	b64 := *std[0]
+	b64.ID, b64.Secret, b64.Redirects, b64.PostLogout = "web+4", "k+9/x== z", []string{"https://web4.example.com/cb"}, nil
+	bk := opfix.ECKey("client-web+4")
+	b64.Keys = map[string]*jose.JSONWebKey{"k1": {Key: &bk.PublicKey, KeyID: "k1", Algorithm: "ES256", Use: "sig"}}
+	return []*refstore.Client{&web, &pk, &sp, &b64}
 }
 
 type World struct {
@@ -681,17 +787,46 @@ func (w *World) buildTokenRequest(place string, form url.Values, credField, deco
 	req := httptest.NewRequest(http.MethodPost, target, strings.NewReader(body.Encode()))
 	req.Header.Set("Content-Type", "application/x-www-form-urlencoded")
 	if len(basic) == 2 {
-		esc := url.QueryEscape
-		if len(enc) > 0 && enc[0] == "pct" {
-			esc = func(v string) string { return strings.ReplaceAll(url.QueryEscape(v), "+", "%20") }
+		encID, encSec := "", ""
+		if len(enc) > 0 {
+			encID, encSec = enc[0], enc[0]
 		}
-		req.SetBasicAuth(esc(basic[0]), esc(basic[1]))
+		if len(enc) > 1 && enc[1] != "" {
+			encSec = enc[1]
+		}
+		req.SetBasicAuth(HeaderText(encID, basic[0]), HeaderText(encSec, basic[1]))
 	}
 	return req
 }
 
 // tokenHTTP builds the HTTP request of a code / refresh operation.
 func (w *World) tokenHTTP(o Op) *http.Request {
+	req := w.tokenHTTP0(o)
+	if o.Place != "stray" || len(o.Stray) == 0 {
+		return req
+	}
+	// the parameters the grant does not define: appended to the body, or sent in the query string
+	extra := url.Values{}
+	for _, kv := range o.Stray {
+		extra.Add(kv[0], kv[1])
+	}
+	if o.StrayQuery {
+		req.URL.RawQuery = extra.Encode()
+		req.RequestURI = req.URL.RequestURI()
+		return req
+	}
+	body, _ := io.ReadAll(req.Body)
+	nb := string(body)
+	if nb != "" {
+		nb += "&"
+	}
+	nb += extra.Encode()
+	req.Body = io.NopCloser(strings.NewReader(nb))
+	req.ContentLength = int64(len(nb))
+	return req
+}
+
+func (w *World) tokenHTTP0(o Op) *http.Request {
 	if o.Kind == "code" {
 		form := url.Values{"grant_type": {"authorization_code"}}
 		if o.Code != 0 {
@@ -705,7 +840,7 @@ func (w *World) tokenHTTP(o Op) *http.Request {
 			w.Vers[o.Ver] = true
 		}
 		basic := w.applyCred(o.Cred, form)
-		return w.buildTokenRequest(o.Place, form, "code", w.codeString(DecoyID), "refresh_token", basic, o.BasicEnc)
+		return w.buildTokenRequest(o.Place, form, "code", w.codeString(DecoyID), "refresh_token", basic, o.BasicEnc, o.SecEnc)
 	}
 	form := url.Values{"grant_type": {"refresh_token"}}
 	if o.RT != 0 {
@@ -715,7 +850,7 @@ func (w *World) tokenHTTP(o Op) *http.Request {
 		form.Set("scope", strings.Join(o.Scopes, " "))
 	}
 	basic := w.applyCred(o.Cred, form)
-	return w.buildTokenRequest(o.Place, form, "refresh_token", w.realID("rt", DecoyID), "authorization_code", basic, o.BasicEnc)
+	return w.buildTokenRequest(o.Place, form, "refresh_token", w.realID("rt", DecoyID), "authorization_code", basic, o.BasicEnc, o.SecEnc)
 }
 
 // ExecOverlap sends token request a, holds it inside its first state-dependent storage lookup
@@ -949,7 +1084,11 @@ func (w *World) Exec(o Op) Out {
 		w.St.FaultMethod, w.St.FaultHit = "", false
 		return w.tokenOut(resp)
 	case "refresh":
-		return w.tokenOut(opfix.Do(w.F.Handlers[o.Router], w.tokenHTTP(o)))
+		req := w.tokenHTTP(o)
+		w.St.FaultMethod, w.St.FaultHit = o.Fault, false
+		resp := opfix.Do(w.F.Handlers[o.Router], req)
+		w.St.FaultMethod, w.St.FaultHit = "", false
+		return w.tokenOut(resp)
 	case "dropgrants":
 		if c, ok := w.St.Clients[o.Client]; ok {
 			c.Grants = nil
